@@ -13,6 +13,7 @@ import itertools
 from .. import core, harness, vloop
 
 PROP = 'C18'
+TECHNIQUE = ('runtime monitoring: virtual-time history at the boundary of every Repeat block (entering and delivered events) checked by trace rules (immediate forward, numbering, pace, count, no stale re-send, nothing after stop)')
 LEVEL = 'exploration'
 RULE = ("case = (structure: explicit Repeat / implicit Repeat created by Event(..., repeat=) on an "
         "Input's on_output / chain Repeat -> Repeat -> destination; count in {None,0,1,3}; interval "
